@@ -103,6 +103,16 @@ func runC03(c *core.Ctx) {
 	} else {
 		t = g.Tree(1 + c.R.Intn(6))
 	}
+	if c.Case%10 == 9 {
+		// a third-party SafeFormatter leaf that prints nothing in short mode, at the end of the main chain
+		n := t
+		for len(n.Kids) == 1 && !model.IsMulti(n) && len(n.Kids[0].Kids) > 0 {
+			n = n.Kids[0]
+		}
+		if len(n.Kids) == 1 && !model.IsMulti(n) {
+			n.Kids[0] = g.Make("silentsafeleaf", nil, nil)
+		}
+	}
 	coverTree(c, t)
 	e, _, ok := safeBuild(c, t)
 	if !ok {
